@@ -641,6 +641,79 @@ func sameNameCases(yield func(*ConvCase) bool) bool {
 	return true
 }
 
+// ---- explicit presence: proto3 optional and oneof members holding their zero value ---------------------
+
+func ExplicitPresenceProgram() *Program {
+	e := &EnumDecl{Name: "E", Values: []EnumValue{{"E_ZERO", 0}, {"E_ONE", 1}}}
+	inner := &Msg{Name: "Inner", Fields: []*Field{F("x", 1, Int32).Optional(), F("s", 2, String).Optional()}}
+	t := &Msg{Name: "T", Fields: []*Field{F("oi", 1, Int32).Optional(), F("os", 2, String).Optional(), FE("oe", 3, "E").Optional(), F("od", 4, Double).Optional(), F("ob", 5, Bool).Optional(),
+		F("o64", 6, Int64).Optional(), F("oby", 7, Bytes).Optional(),
+		F("ui", 8, Int32).InOneof("u"), F("us", 9, String).InOneof("u"), FE("ue", 10, "E").InOneof("u"), F("ud", 11, Double).InOneof("u"),
+		FM("in", 12, "Inner"), FM("l", 13, "Inner").Repeated(), FM("m", 14, "Inner").MapOf(String), F("plain", 15, Int32)}}
+	f := &File{Path: "main.proto", Pkg: Pkg, Enums: []*EnumDecl{e}, Msgs: []*Msg{inner, t}, Svcs: []*Service{OneMethodService("T", "T")}}
+	return &Program{Name: "explicit-presence", Main: "main.proto", Files: []*File{f}}
+}
+
+func explicitPresenceCases(yield func(*ConvCase) bool) bool {
+	prog := ExplicitPresenceProgram()
+	zero := func(fd protoreflect.FieldDescriptor) protoreflect.Value {
+		switch fd.Kind() {
+		case protoreflect.StringKind:
+			return protoreflect.ValueOfString("")
+		case protoreflect.BytesKind:
+			return protoreflect.ValueOfBytes([]byte{})
+		case protoreflect.BoolKind:
+			return protoreflect.ValueOfBool(false)
+		case protoreflect.DoubleKind:
+			return protoreflect.ValueOfFloat64(0)
+		case protoreflect.EnumKind:
+			return protoreflect.ValueOfEnum(0)
+		case protoreflect.Int64Kind:
+			return protoreflect.ValueOfInt64(0)
+		}
+		return protoreflect.ValueOfInt32(0)
+	}
+	for _, name := range []string{"oi", "os", "oe", "od", "ob", "o64", "oby", "ui", "us", "ue", "ud", "in.x", "in.s", "l.x", "m.x", "all-optionals"} {
+		name := name
+		c := &ConvCase{Prog: prog, What: "member with explicit presence holding its zero value: " + name, Focus: "explicit-presence-zero", Has64: true,
+			Build: func(ref *Ref) protoreflect.Message {
+				root := dynamicpb.NewMessage(ref.Msg(Pkg + ".T"))
+				fs := root.Descriptor().Fields()
+				setZero := func(m protoreflect.Message, n string) {
+					fd := m.Descriptor().Fields().ByName(protoreflect.Name(n))
+					m.Set(fd, zero(fd))
+				}
+				switch {
+				case name == "all-optionals":
+					for _, n := range []string{"oi", "os", "oe", "od", "ob", "o64", "oby"} {
+						setZero(root, n)
+					}
+					setZero(root.Mutable(fs.ByName("in")).Message(), "x")
+				case strings.HasPrefix(name, "in."):
+					setZero(root.Mutable(fs.ByName("in")).Message(), name[3:])
+				case strings.HasPrefix(name, "l."):
+					l := root.Mutable(fs.ByName("l")).List()
+					e := l.NewElement()
+					setZero(e.Message(), name[2:])
+					l.Append(e)
+				case strings.HasPrefix(name, "m."):
+					mp := root.Mutable(fs.ByName("m")).Map()
+					v := mp.NewValue()
+					setZero(v.Message(), name[2:])
+					mp.Set(protoreflect.ValueOfString("k").MapKey(), v)
+				default:
+					setZero(root, name)
+				}
+				root.Set(fs.ByName("plain"), protoreflect.ValueOfInt32(7))
+				return root
+			}}
+		if !yield(c) {
+			return false
+		}
+	}
+	return true
+}
+
 // ---- length-delimited fields whose tags start with the same byte -------------------------------------
 
 // CongruentProgram: field numbers congruent mod 16 with tags of the same length (17/33/49, 18/34, 19/35).
@@ -720,7 +793,7 @@ func congruentCases(yield func(*ConvCase) bool) bool {
 // ScopeGroups lists the groups of the shared conversion scope.
 func ScopeGroups(tier string) []string {
 	g := append([]string{}, valueGroups...)
-	g = append(g, "presence", "jsonnames", "recursion", "samename", "congruent")
+	g = append(g, "presence", "jsonnames", "recursion", "samename", "congruent", "explicit-presence")
 	g = append(g, structGroups()...)
 	return g
 }
@@ -742,6 +815,8 @@ func ScopeEnumerate(tier, group string, yield func(*ConvCase) bool) bool {
 		return sameNameCases(yield)
 	case group == "congruent":
 		return congruentCases(yield)
+	case group == "explicit-presence":
+		return explicitPresenceCases(yield)
 	}
 	panic("harness: unknown scope group " + group)
 }
